@@ -11,6 +11,7 @@ from cidersim.prng import Rng, derive
 NLDF_KINDS = ["nldf_j", "nldf_j_all", "nldf_j_gga", "nldf_i", "nldf_i_l1", "nldf_ij", "nldf_k"]
 SDMX_KINDS = ["sdmx", "sdmxg", "sdmx1", "sdmxg1"]
 TINY_MOLS = ["He", "H2", "HeH+", "LiH", "H2O"]
+MANY_ATOM_MOLS = ["CH4", "H6", "H9"]  # > 4 atoms: dynamic,4 loops over atoms hand out several chunks
 
 
 def _rho_data(nprng, nrho, n, scale=1.0):
@@ -38,7 +39,7 @@ def draw_nldf_params(rng):
     return {
         "kind": rng.choice(NLDF_KINDS),
         "sseed": rng.below(10**6),
-        "mol": rng.choice(TINY_MOLS),
+        "mol": rng.choice(TINY_MOLS + MANY_ATOM_MOLS),
         "nrad": rng.choice([5, 7, 8, 11, 13]),
         "nang": rng.choice([14, 26, 50]),
         "lmax": rng.choice([2, 3, 4, 6]),
@@ -530,7 +531,7 @@ def wl_pbc_helpers(p):
 
 
 def draw_atc_params(rng):
-    return {"mol": rng.choice(TINY_MOLS), "lmax": rng.choice([1, 2, 3, 4]), "beta": rng.choice([2.0, 2.4, 3.0]), "nq": rng.choice([1, 2, 5, 9]), "nk": rng.choice([1, 3, 8, 17]), "nlm": rng.choice([1, 4, 9]), "nspin": rng.choice([1, 2]), "dseed": rng.below(10**6)}
+    return {"mol": rng.choice(TINY_MOLS + MANY_ATOM_MOLS + MANY_ATOM_MOLS), "lmax": rng.choice([1, 2, 3, 4]), "beta": rng.choice([2.0, 2.4, 3.0]), "nq": rng.choice([1, 2, 5, 9]), "nk": rng.choice([1, 3, 8, 17]), "nlm": rng.choice([1, 4, 9]), "nspin": rng.choice([1, 2]), "dseed": rng.below(10**6)}
 
 
 def wl_atc_misc(p):
